@@ -25,6 +25,11 @@ FIRST_LOOK = {  # recorded when the seed was first run, before any rule was touc
  "C05-7": "caught", "C05-8": "floor alarm only", "C05-9": "floor alarm only",
  "C06-7": "caught", "C06-8": "missed", "C06-9": "caught",
  "C28-7": "caught", "C28-8": "missed", "C28-9": "missed",
+ "C13-7": "missed", "C13-8": "missed", "C13-9": "missed",
+ "C31-7": "missed", "C31-8": "missed", "C31-9": "caught",
+ "C14-7": "unknown-shape alarm only", "C14-8": "unknown-shape alarm only", "C14-9": "caught",
+ "C30-7": "missed", "C30-8": "missed", "C30-9": "caught",
+ "C15-7": "lost-anchor alarm only", "C15-8": "caught", "C15-9": "missed",
 }
 def key(d):
     m = re.match(r".*/C(\d+)-(\d+)$", d); return (int(m.group(1)), int(m.group(2)))
